@@ -131,7 +131,21 @@ def call_impl(mode, shape, env):
     return H.block_payload_hash(ref.b58check('B', env[('pred',)]), rnd, lists[0])
 
 
+MAX_PER_CLASS = 4      # once an input class has this many mismatches, further cases of the class are skipped (and counted)
+_bad = {}
+
+
+def saturated(ctx, mode, shape):
+    n = len(shape) if mode == 'oll' else shape[0]
+    if _bad.get((mode, lenclass(n)), 0) >= MAX_PER_CLASS:
+        ctx.skip('input class %s:%s already has %d mismatches' % (mode, lenclass(n), MAX_PER_CLASS))
+        return True
+    return False
+
+
 def compare(ctx, mode, shape, root, env, sig='C31:replay'):
+    if saturated(ctx, mode, shape):
+        return False
     want = ref.b58check(KIND[mode], evaluate(root, env))
     try:
         got = call_impl(mode, shape, env)
@@ -143,6 +157,7 @@ def compare(ctx, mode, shape, root, env, sig='C31:replay'):
     if obs is None:
         obs = 'wrong-hash' if isinstance(got, str) and ref.b58check_payload(KIND[mode], got) is not None else 'wrong-encoding'
     n = len(shape) if mode == 'oll' else shape[0]
+    _bad[(mode, lenclass(n))] = _bad.get((mode, lenclass(n)), 0) + 1
     case = {'mode': mode, 'shape': list(shape), 'root': to_json(root),
             'env': [[list(k), v.hex()] for k, v in env.items()]}
     ctx.mismatch('%s:%s:%s:%s' % (sig, mode, lenclass(n), obs),
@@ -260,10 +275,13 @@ def leg_c(ctx, rng):
         if mode == 'payload':
             env[('pred',)] = rng.randbytes(32)
             env[('round',)] = rng.choice(ROUNDS + [rng.randrange(2 ** 31)]).to_bytes(4, 'big')
+        if saturated(ctx, mode, shape):
+            continue
         try:
             tr, got = record(mode, shape, env)
         except Exception as e:   # noqa
             n = len(shape) if mode == 'oll' else shape[0]
+            _bad[(mode, lenclass(n))] = _bad.get((mode, lenclass(n)), 0) + 1
             ctx.mismatch('C31:trace-call:%s:%s:raises-%s' % (mode, lenclass(n), type(e).__name__),
                          '%s over lists of lengths %s raised %r' % (mode, list(shape), e), {'mode': mode, 'shape': list(shape)})
             continue
